@@ -21,7 +21,11 @@ func MatchWildcardRegexp(query string, exact bool) *regexp.Regexp {
 	if exact {
 		return regexp.MustCompile(fmt.Sprintf("^%s$", regexpQuery))
 	}
-	return regexp.MustCompile(fmt.Sprintf("^%s", regexpQuery))
+	if strings.HasSuffix(query, "/") || strings.HasSuffix(query, "...") {
+		return regexp.MustCompile(fmt.Sprintf("^%s", regexpQuery))
+	}
+	// A prefix match ends at a path element boundary: /a/b matches /a/b/c and /a/b[k=1] but not /a/bc
+	return regexp.MustCompile(fmt.Sprintf(`^%s(?:$|[/\[])`, regexpQuery))
 }
 
 // MatchWildcardChNameRegexp creates a Regular Expression from a wild-carded path
